@@ -79,7 +79,9 @@ pub fn run(tier: Tier) -> Report {
     let ks: Vec<usize> = match tier {
         Tier::Quick => {
             let mut v: Vec<usize> = (0..=8).collect();
-            v.extend([50, 56, 57, 58, 59, 60, 100, 139, 140, 141, 142, 143, 144, 145, 146, 147, 148, 149, 150, 200, 300, 499, 500]);
+            v.extend(9..=70);
+            v.extend(130..=190);
+            v.extend([100, 200, 250, 300, 400, 499, 500]);
             v
         }
         Tier::Thorough => (0..=500).collect(),
